@@ -2,7 +2,9 @@ package rules
 
 import (
 	"fmt"
+	"go/token"
 	"go/types"
+	"strings"
 
 	"golang.org/x/tools/go/ssa"
 
@@ -22,7 +24,7 @@ func init() {
 			"plus shared: terminate closes the transport once and wakes the reader (C04.R4), every blocking point of the connection goroutines has a term case (C04.R6), the watcher cancels the active stream on termination (C04.R3), finish signals (C03.R5).",
 		NotDecided:  "that Close returns for every instant it is issued; a goroutine census at runtime; that every pending call fails (C04/C05 cover the mechanisms).",
 		Assumptions: []string{"Transport.Close returns and unblocks pending I/O (transport contract)"},
-		Rules: []Rule{
+		Rules: append([]Rule{
 			{ID: "C12.R1", Doc: "Manager.Close: terminate; Wait(stream), Wait(read), Wait(tport); return tport.Err(). Goroutines set their signal by a first defer", Run: c12r1},
 			{ID: "C12.R2", Doc: "goroutine inventory: every go statement has a resolved target and a termination witness", Run: c12r2},
 			{ID: "C12.R3", Doc: "ServeOne defers Manager.Close; Serve defers tracker.Wait before tracker.Cancel and runs connections through the tracker", Run: c12r3},
@@ -38,7 +40,7 @@ func init() {
 			{ID: "C12.S8", Alias: "C03.R4"},
 			{ID: "C12.S9", Alias: "C04.W2"},
 			{ID: "C12.S10", Alias: "C01.R4"},
-		},
+		}, disciplineRules("C12", "drpcstream", "drpcmanager", "drpcconn", "drpcwire", "drpcserver", "drpcctx", "drpcpool")...),
 	})
 }
 
@@ -229,6 +231,41 @@ func c12r3(c *an.Ctx) {
 		}
 	}
 	c.Check(ok, "(*Server).Serve | defer tracker.Wait() registered before defer tracker.Cancel()", c.P.Pos(sv.Pos()), "", "Serve does not cancel and then wait for its connection goroutines on every return (deferred calls run in reverse order: Cancel must run first or Wait blocks forever; without Wait, Serve returns before connections are torn down)")
+	// Accept is unblocked when the context ends: a goroutine of Serve waits for the context and closes the listener
+	closesLis := false
+	for _, fn := range an.WithAnon(sv) {
+		if fn == sv {
+			continue
+		}
+		var waitsCtx, closes ssa.Instruction
+		an.Instrs(fn, func(in ssa.Instruction) {
+			if u, ok := in.(*ssa.UnOp); ok && u.Op == token.ARROW {
+				if call, isCall := u.X.(*ssa.Call); isCall && call.Common().IsInvoke() && call.Common().Method.Name() == "Done" {
+					waitsCtx = in
+				}
+			}
+			if ci, ok := in.(ssa.CallInstruction); ok && ci.Common().IsInvoke() && ci.Common().Method.Name() == "Close" {
+				if strings.HasSuffix(ci.Common().Value.Type().String(), "net.Listener") {
+					closes = in
+				}
+			}
+		})
+		if waitsCtx != nil && closes != nil && an.InstrDominates(waitsCtx, closes) {
+			// started from Serve before its accept loop: through tracker.Run or a go statement
+			an.Instrs(sv, func(in ssa.Instruction) {
+				ci, ok := in.(ssa.CallInstruction)
+				if !ok {
+					return
+				}
+				for _, arg := range append([]ssa.Value{ci.Common().Value}, ci.Common().Args...) {
+					if mc, isMC := arg.(*ssa.MakeClosure); isMC && mc.Fn == ssa.Value(fn) {
+						closesLis = true
+					}
+				}
+			})
+		}
+	}
+	c.Check(closesLis, "(*Server).Serve | a goroutine waits for the context and closes the listener", c.P.Pos(sv.Pos()), "", "nothing unblocks Accept when the context is cancelled: Serve (and whoever waits for it) never returns")
 	// ServeOne is only started through tracker.Run
 	nServe := 0
 	for _, fn := range an.WithAnon(sv) {
@@ -289,6 +326,86 @@ func c12r3(c *an.Ctx) {
 		}
 	}
 	c.Check(okRun, "(*Tracker).Run | starts the callback on every call", c.P.Pos(run.Pos()), "", "Tracker.Run can return without running its callback: a connection accepted around cancellation is neither served nor closed")
+	// wait-group accounting: one unit is added before each goroutine is started, the goroutine gives it back on
+	// every way out, Wait waits on the same group
+	isWG := func(cc *ssa.CallCommon, name string) bool {
+		f := cc.StaticCallee()
+		return f != nil && f.Name() == name && f.Pkg != nil && f.Pkg.Pkg.Path() == "sync" && strings.Contains(f.Signature.Recv().Type().String(), "WaitGroup")
+	}
+	okAdd := goAt != nil
+	an.Instrs(run, func(in ssa.Instruction) {
+		g, isGo := in.(*ssa.Go)
+		if !isGo {
+			return
+		}
+		dominated := false
+		an.Instrs(run, func(in2 ssa.Instruction) {
+			if call, ok := in2.(*ssa.Call); ok && isWG(call.Common(), "Add") && an.InstrDominates(in2, g) {
+				if k, isK := an.ConstInt(an.Arg(call.Common(), 0)); isK && k == 1 {
+					dominated = true
+				}
+			}
+		})
+		if !dominated {
+			okAdd = false
+		}
+		// the started function gives the unit back on every return
+		var started *ssa.Function
+		if f := g.Common().StaticCallee(); f != nil {
+			started = f
+		}
+		if started == nil || len(started.Blocks) == 0 {
+			okAdd = false
+			return
+		}
+		c.Analysed(started)
+		gives := false
+		an.Instrs(started, func(in2 ssa.Instruction) {
+			ci, ok := in2.(ssa.CallInstruction)
+			if !ok || !isWG(ci.Common(), "Done") {
+				return
+			}
+			all := true
+			for _, ret := range an.Returns(started) {
+				if !retReachable(started, ret) {
+					continue // the way out after a recovered panic: deferred calls have run
+				}
+				if !an.InstrDominates(in2, ret) {
+					all = false
+				}
+			}
+			if all {
+				gives = true
+			}
+		})
+		if !gives {
+			okAdd = false
+		}
+	})
+	tw := c.Fn("drpcctx", "(*Tracker).Wait")
+	waits := false
+	an.Instrs(tw, func(in ssa.Instruction) {
+		if ci, ok := in.(ssa.CallInstruction); ok && isWG(ci.Common(), "Wait") {
+			if _, isGo := in.(*ssa.Go); !isGo {
+				waits = true
+			}
+		}
+	})
+	usesWG := false
+	for _, f := range must(c.P.SourceFuncs("drpcctx")) {
+		for _, ff := range an.WithAnon(f) {
+			an.Instrs(ff, func(in ssa.Instruction) {
+				if ci, ok := in.(ssa.CallInstruction); ok && (isWG(ci.Common(), "Add") || isWG(ci.Common(), "Done") || isWG(ci.Common(), "Wait")) {
+					usesWG = true
+				}
+			})
+		}
+	}
+	if !usesWG {
+		c.Note("drpcctx does not use a sync.WaitGroup: the wait-group accounting clause does not apply")
+		okAdd, waits = true, true
+	}
+	c.Check(okAdd && waits, "Tracker | one wait-group unit per started goroutine: Add(1) before go, Done on every return of the goroutine, Wait waits for the group", c.P.Pos(run.Pos()), "", "the tracker's wait group does not count its goroutines: Serve's deferred Wait returns while connections are still being served (or the counter goes negative)")
 }
 
 func c12r4(c *an.Ctx) { closeOnce(c, "") }
